@@ -80,7 +80,8 @@ Inv_By == \A k \in PartKinds : st.by[k].op \in AllOps \cup {"New"}
 
 Fresh(op) == op.op \in {"RenderText", "ConvertMd"}
 \* parts are never lost by a call on the same document; a failing call changes nothing but the premise
-Act_Grow == [][(~Fresh(last') /\ Ret(st, last') = "ok") => \A k \in PartKinds : NOf(st'.pkg, k) >= NOf(st.pkg, k)]_vars
+Lean(op) == op.op = "Reopen" /\ op.sp = "min"
+Act_Grow == [][(~Fresh(last') /\ ~Lean(last') /\ Ret(st, last') = "ok") => \A k \in PartKinds : NOf(st'.pkg, k) >= NOf(st.pkg, k)]_vars
 Act_Fail == [][Ret(st, last') # "ok" => (st'.pkg = st.pkg /\ st'.by = st.by /\ st'.taint)]_vars
 \* saving and reading change nothing at all
 Act_Save == [][last'.op \in SaveOps \cup {"GetDocumentProperties"} => (st'.pkg = st.pkg /\ st'.by = st.by /\ st'.hdr = st.hdr /\ st'.ftr = st.ftr)]_vars
@@ -90,7 +91,8 @@ Act_New   == [][\A k \in PartKinds : (NOf(st'.pkg, k) > NOf(st.pkg, k) /\ ~Fresh
 \* reading a package back, however its producer spelt it, keeps every part, the one main document and yields an opened document;
 \* editing a style in place changes no part list; the origin changes only by the calls that replace the document object
 Act_Reopen == [][last'.op = "Reopen" => (st'.org = "opened" /\ st'.pkg.odoc = st.pkg.odoc /\ st'.hdr = st.hdr /\ st'.ftr = st.ftr
-                                        /\ (last'.sp # "extra" => st'.pkg = st.pkg))]_vars
+                                        /\ (last'.sp \notin {"extra", "min"} => st'.pkg = st.pkg)
+                                        /\ \A k \in PartKinds \ {"core", "app"} : NOf(st'.pkg, k) >= NOf(st.pkg, k))]_vars
 Act_Style  == [][last'.op = "EditStyle" => (st'.pkg = st.pkg /\ st'.by["styles"] = Writer(last'))]_vars
 Act_Org    == [][st'.org # st.org => last'.op \in {"Reopen", "Render", "RenderText", "ConvertMd"}]_vars
 Inv_Org    == st.org \in Origins /\ (st.org = "new" => "other" \notin KindsIn(st.pkg))
